@@ -16,10 +16,10 @@ func init() {
 const htmlTplPath = "html/template"
 
 func checkC01(r *Run) {
-	r.Rule("R1", "only the sink writes: every Write on a *strings.Builder in the evaluator package happens inside the output sink", 4)
-	r.Rule("R2", "typed dispatch of the sink: string and bool are written through the HTML escaper only; template.HTML and HTMLer are written verbatim exactly once; containers and wrappers recurse into the sink; unescaped renderings only for the frozen safe table (numbers, time, fmt.Stringer); first-match order keeps HTML out of escaping arms and strings out of verbatim arms", 10)
-	r.Rule("R3", "statement-level routing: the value handed to the sink by the top-level loop and by BlockWith is the evaluation result itself (no conversion in between)", 2)
-	r.Rule("R4", "provenance of trusted HTML: every conversion to template.HTML in the module has an operand that is template text, already rendered output, \"\", json.Marshal output, raw's own parameter, or debug's <pre> wrapper", 9)
+	r.Rule("R1", "only the sink writes: every Write on a *strings.Builder in the evaluator package happens inside the output sink", 1)
+	r.Rule("R2", "typed dispatch of the sink: string and bool are written through the HTML escaper only; template.HTML and HTMLer are written verbatim exactly once; containers and wrappers recurse into the sink; unescaped renderings only for the frozen safe table (numbers, time, fmt.Stringer); first-match order keeps HTML out of escaping arms and strings out of verbatim arms", 4)
+	r.Rule("R3", "statement-level routing: the value handed to the sink by the top-level loop and by BlockWith is the evaluation result itself (no conversion in between)", 1)
+	r.Rule("R4", "provenance of trusted HTML: every conversion to template.HTML in the module has an operand that is template text, already rendered output, \"\", json.Marshal output, raw's own parameter, or debug's <pre> wrapper", 4)
 	r.Rule("R5", "values obtained by reflection keep their dynamic type: the evaluator never reads a reflect.Value through String()", 1)
 	sinkWritesRule(r, "R1")
 	sinkDispatchRule(r, "R2")
@@ -36,6 +36,79 @@ func isBuilderWrite(info *types.Info, c *ast.CallExpr) bool {
 	return methodIs(cal, "strings", "Builder", cal.Name())
 }
 
+// sinkFamily: the sink and the root-package functions that are called only from the sink family.
+func (w *World) sinkFamily() map[*types.Func]bool {
+	fam := map[*types.Func]bool{}
+	sink := w.sinkMethod()
+	if sink == nil {
+		return fam
+	}
+	fam[sink.Obj] = true
+	callers := map[*types.Func]map[*types.Func]bool{}
+	for _, f := range w.Funcs("") {
+		for _, c := range callsIn(f.Decl.Body, false) {
+			if cal := calleeOf(f.Pkg.TypesInfo, c); cal != nil && w.FuncOf(cal) != nil && w.FuncOf(cal).Rel == "" {
+				if callers[cal] == nil {
+					callers[cal] = map[*types.Func]bool{}
+				}
+				callers[cal][f.Obj] = true
+			}
+		}
+	}
+	for changed := true; changed; {
+		changed = false
+		for cal, cs := range callers {
+			if fam[cal] || cal.Exported() {
+				continue
+			}
+			all := len(cs) > 0
+			for c := range cs {
+				if !fam[c] {
+					all = false
+				}
+			}
+			if all {
+				fam[cal] = true
+				changed = true
+			}
+		}
+	}
+	return fam
+}
+
+// sinkWriteHelpers: family functions other than the sink that write one of their string parameters
+// verbatim to the builder; maps the function to the index of that parameter.
+func (w *World) sinkWriteHelpers() map[*types.Func]int {
+	out := map[*types.Func]int{}
+	sink := w.sinkMethod()
+	if sink == nil {
+		return out
+	}
+	for fn := range w.sinkFamily() {
+		f := w.FuncOf(fn)
+		if f == nil || fn == sink.Obj {
+			continue
+		}
+		info := f.Pkg.TypesInfo
+		sig := fn.Type().(*types.Signature)
+		for _, c := range callsIn(f.Decl.Body, false) {
+			if !isBuilderWrite(info, c) {
+				continue
+			}
+			for i := 0; i < sig.Params().Len(); i++ {
+				p := sig.Params().At(i)
+				if !isBasicKind(p.Type(), types.String) {
+					continue
+				}
+				if writeKind(w, info, c, func(e ast.Expr) bool { return objOf(info, e) == p }) == "verbatim" {
+					out[fn] = i
+				}
+			}
+		}
+	}
+	return out
+}
+
 func sinkWritesRule(r *Run, rule string) {
 	w := r.W
 	sink := w.sinkMethod()
@@ -43,6 +116,7 @@ func sinkWritesRule(r *Run, rule string) {
 		r.Lost(rule, "output sink (evaluator method with a *strings.Builder parameter)")
 		return
 	}
+	family := w.sinkFamily()
 	for _, f := range w.Funcs("") {
 		info := f.Pkg.TypesInfo
 		if sig := f.Obj.Type().(*types.Signature); sig.Recv() != nil && f.Decl.Name.Name == "String" && sig.Params().Len() == 0 && sig.Results().Len() == 1 {
@@ -55,6 +129,8 @@ func sinkWritesRule(r *Run, rule string) {
 			con := "write " + short(w.Fset, c)
 			if f.Obj == sink.Obj {
 				r.Ok(rule, f.Name(), con, w.Pos(c.Pos()), "inside the sink")
+			} else if family[f.Obj] {
+				r.Ok(rule, f.Name(), con, w.Pos(c.Pos()), "inside a helper that only the sink (and its helpers) call")
 			} else {
 				r.Bad(rule, f.Name(), con, w.Pos(c.Pos()), "output is written to a strings.Builder outside the sink: it bypasses the typed escaping dispatch")
 			}
@@ -108,7 +184,12 @@ func writeKind(w *World, info *types.Info, c *ast.CallExpr, isVal func(ast.Expr)
 	if len(c.Args) != 1 {
 		return "other"
 	}
-	a := unparen(c.Args[0])
+	return writeKindOfArg(w, info, c.Args[0], isVal)
+}
+
+// writeKindOfArg classifies the expression that is written.
+func writeKindOfArg(w *World, info *types.Info, arg ast.Expr, isVal func(ast.Expr) bool) string {
+	a := unparen(arg)
 	if bc, ok := a.(*ast.CallExpr); ok && isBytesOfString(w, info, bc) && len(bc.Args) == 1 {
 		a = unparen(bc.Args[0])
 	}
@@ -184,6 +265,7 @@ func sinkDispatchRule(r *Run, rule string) {
 			valParam = sig.Params().At(i)
 		}
 	}
+	writeHelpers := w.sinkWriteHelpers()
 	type armInfo struct {
 		cc     *ast.CaseClause
 		types  []types.Type
@@ -210,6 +292,9 @@ func sinkDispatchRule(r *Run, rule string) {
 		for _, call := range callsIn(cc, true) {
 			if isBuilderWrite(info, call) {
 				a.writes = append(a.writes, writeKind(w, info, call, isVal))
+			}
+			if pi, isHelper := writeHelpers[calleeOf(info, call)]; isHelper && pi < len(call.Args) {
+				a.writes = append(a.writes, writeKindOfArg(w, info, call.Args[pi], isVal))
 			}
 			if calleeOf(info, call) == sink.Obj {
 				a.recs++
@@ -653,9 +738,9 @@ func reflectStringRule(r *Run, rule string) {
 // ---- C02 ---------------------------------------------------------------------
 
 func checkC02(r *Run) {
-	r.Rule("R1", "one ordered write per statement: the top-level evaluator has a single range over the program's statements, one sink call per iteration after the error check, and returns the builder's content only after the loop", 3)
-	r.Rule("R2", "silent statements are silent: at top level only return-style statements, literal text and let reach the sink; inside blocks an expression statement yields a value only if its NODE is literal text or the value is a control-flow object", 3)
-	r.Rule("R3", "literal text is not transformed after the lexer: token literal -> HTMLLiteral.Value -> template.HTML(Value) -> verbatim arm of the sink; the comment parser yields an empty literal", 3)
+	r.Rule("R1", "one ordered write per statement: the top-level evaluator has a single range over the program's statements, one sink call per iteration after the error check, and returns the builder's content only after the loop", 1)
+	r.Rule("R2", "silent statements are silent: at top level only return-style statements, literal text and let reach the sink; inside blocks an expression statement yields a value only if its NODE is literal text or the value is a control-flow object", 1)
+	r.Rule("R3", "literal text is not transformed after the lexer: token literal -> HTMLLiteral.Value -> template.HTML(Value) -> verbatim arm of the sink; the comment parser yields an empty literal", 1)
 	r.Rule("R4", "literal-text scanner: in every iteration, each byte the loop steps over has first been tested for being a tag start ('<' followed by '%'); no path (in particular not the one through the escape handling) reaches the trailing readChar without that test", 1)
 	topLevelWriteRule(r, "R1")
 	coreTopLevelRules(r, "R2", "")
